@@ -197,6 +197,9 @@ func init() {
 				for l := 0; l <= q(tier, 2, 3); l++ {
 					out = append(out, cs("VH_C18_Text", w, l))
 				}
+				if w == 2 {
+					out = append(out, cs("VH_C18_Text", w, 1, 1)) // then set by rune, unset by "", NUL or nil
+				}
 			}
 			out = append(out, cs("VH_C18_FifoAux"))
 			return out
@@ -263,10 +266,10 @@ func init() {
 		gen: func(tier string, seed int) []symx.CaseSpec {
 			var out []symx.CaseSpec
 			for i := range auto.Stack {
-				out = append(out, cs("VH_C17_Stack", i, 0), cs("VH_C17_Stack", i, 1))
+				out = append(out, cs("VH_C17_Stack", i, 0), cs("VH_C17_Stack", i, 1), cs("VH_C17_Stack", i, 2))
 			}
 			for i := range auto.Cond {
-				out = append(out, cs("VH_C17_Cond", i, 0), cs("VH_C17_Cond", i, 1), cs("VH_C17_Cond", i, 2))
+				out = append(out, cs("VH_C17_Cond", i, 0), cs("VH_C17_Cond", i, 1), cs("VH_C17_Cond", i, 2), cs("VH_C17_Cond", i, 3), cs("VH_C17_Cond", i, 4))
 			}
 			for i := range auto.Aux {
 				out = append(out, cs("VH_C17_Aux", i))
@@ -571,16 +574,30 @@ func init() {
 			var out []symx.CaseSpec
 			maxN := q(tier, 6, 9)
 			for n := 0; n <= maxN; n++ {
-				out = append(out, cs("VH_C19", n, 0, 0), cs("VH_C19", n, 0, 1))
-				if n <= q(tier, 4, 6) {
-					out = append(out, cs("VH_C19", n, 1, 1), cs("VH_C19", n, 2, 0))
+				// flat, default options: without and with a scan limit
+				out = append(out, cs("VH_C19", n, 0, 0, 0), cs("VH_C19", n, 0, 1, 0))
+				if n <= q(tier, 5, 6) {
+					for opts := 1; opts <= 3; opts++ {
+						out = append(out, cs("VH_C19", n, 0, 0, opts), cs("VH_C19", n, 0, 1, opts))
+					}
+				}
+				// nested: inside a Stack, as a Condition's expression, two levels
+				// down through a Condition, nested before no-nesting was switched
+				// on, behind a pointer to an alias
+				if n <= 7 {
+					for where := 1; where <= 5; where++ {
+						out = append(out, cs("VH_C19", n, where, 0, 0))
+						if n <= q(tier, 4, 5) {
+							out = append(out, cs("VH_C19", n, where, 1, 0))
+						}
+					}
 				}
 			}
 			return out
 		},
 		boundsText: map[string]string{
-			"quick":    "every nil/non-nil pattern of length 0..6 (flat) and 0..4 (nested in a Stack / as a Condition's expression); scan limit: absent or any int larger than the longest nil run (solver variable); negative/forward index bits symbolic",
-			"thorough": "every pattern of length 0..9 (flat) and 0..6 (nested)",
+			"quick":    "every nil/non-nil pattern of length 0..6 (flat, default index options; 0..5 with negative / forward / both index options) and 0..7 nested (inside a Stack, as a Condition's expression, two levels down through a Condition, nested before SetNoNesting, behind a pointer to an alias); scan limit: absent, or any int larger than the longest nil run (solver variable; nested: length 0..4)",
+			"thorough": "every pattern of length 0..9 (flat), 0..6 with index options, 0..7 nested (0..5 with a limit)",
 		},
 		outside: "patterns longer than the bound; limits not exceeding the longest nil run (outside the statement's precondition)",
 		assumptions: []string{"known findings are keyed by the nil pattern (a letter per element, '.' per nil) and the failing assertion"},
@@ -648,8 +665,16 @@ func init() {
 		id: "C12",
 		gen: func(tier string, seed int) []symx.CaseSpec {
 			var out []symx.CaseSpec
-			for k := 0; k <= 18; k++ {
+			for k := 0; k <= 22; k++ {
 				out = append(out, cs("VH_C12_Convert", k))
+			}
+			// every conversion after every other kind of value has been converted
+			for k := 0; k <= 22; k++ {
+				for e := 0; e <= 22; e++ {
+					if tier == "thorough" || e >= 19 || e == 12 || (k+e)%5 == 0 {
+						out = append(out, cs("VH_C12_Convert", k, e))
+					}
+				}
 			}
 			// hand-picked: a condition whose expression is a stack alias; nested stack; nested condition
 			out = append(out, cs("VH_C12", 2, 2, 0, 0, 5, 1, 0, 0))
